@@ -12,6 +12,7 @@ import (
 	"github.com/hknutzen/Netspoc-Approve/go/pkg/mytime"
 	"github.com/hknutzen/Netspoc-Approve/go/pkg/program"
 	"github.com/hknutzen/Netspoc-Approve/go/pkg/status"
+	"github.com/hknutzen/Netspoc-Approve/go/pkg/verifhook"
 	"github.com/spf13/pflag"
 )
 
@@ -73,6 +74,7 @@ func Main() int {
 		fs.Usage()
 		return 1
 	}
+	verifhook.Point("doapprove:start")
 	lockFH, err := device.SetLock(devName, cfg)
 	if lockFH != nil {
 		defer lockFH.Close()
@@ -80,15 +82,19 @@ func Main() int {
 	if err != nil {
 		return abort("%v", err)
 	}
+	verifhook.Point("doapprove:locked")
 	hLog, err := openHistoryLog(cfg, devName)
 	if err != nil {
 		return abort("can't %v", err)
 	}
+	verifhook.Point("doapprove:history-open")
 	logHistory(hLog, "START:", strings.Join(os.Args[1:], " "))
 	logHistory(hLog, "POLICY:", policy)
 	var warnings, errors, changed, failed bool
+	verifhook.Point("doapprove:before-run")
 	stat := device.ApproveOrCompare(
 		isCompare, codeFile, cfg, logDir, logFile, false)
+	verifhook.Point("doapprove:after-run")
 	if stat != 0 {
 		failed = true
 		errors = true
@@ -121,12 +127,14 @@ func Main() int {
 	}
 
 	// Update status file.
+	verifhook.Point("doapprove:before-status")
 	if isCompare {
 		status.SetCompare(cfg, devName, policy, changed || errors)
 	} else {
 		status.SetApprove(cfg, devName, policy, failed)
 	}
 
+	verifhook.Point("doapprove:after-status")
 	okMsg := "OK"
 	if failed {
 		okMsg = "FAILED"
@@ -136,6 +144,7 @@ func Main() int {
 	}
 
 	logHistory(hLog, "END:", okMsg)
+	verifhook.Point("doapprove:end")
 
 	if failed {
 		return 1
